@@ -189,6 +189,20 @@ fn locator(name: &str, l: f64) -> Box<dyn EdgeLocate> {
     }
 }
 
+/// The same locators with the value that the library documents as the default passed explicitly
+fn locator_explicit(name: &str, l: f64) -> Box<dyn EdgeLocate> {
+    match name {
+        "fitradius" => FitRadiusEdge::make(Some(1e-4 * l)),
+        "tracemax" => TraceToMaxCurvature::make(Some(0.005)),
+        "converge" => ConvergeTangentEdge::make(Some(1e-4 * l)),
+        other => locator(other, l),
+    }
+}
+
+fn has_optional_tolerance(name: &str) -> bool {
+    name == "fitradius" || name == "tracemax" || name == "converge"
+}
+
 pub fn poses() -> [Iso2; 4] {
     [Iso2::identity(), Iso2::new(Vector2::new(30.0, -12.0), 0.7), Iso2::new(Vector2::new(-5.0, 2.0), 2.9), Iso2::new(Vector2::new(0.3, 0.1), -1.4)]
 }
@@ -202,9 +216,14 @@ struct Summary {
 }
 
 fn analyze(sec: &Curve2, l: f64, case: &Case, face: &FaceOrient, fwd: Vector2) -> Result<AirfoilGeometry, String> {
+    analyze_with(sec, l, case, face, fwd, false)
+}
+
+fn analyze_with(sec: &Curve2, l: f64, case: &Case, face: &FaceOrient, fwd: Vector2, explicit: bool) -> Result<AirfoilGeometry, String> {
     let o: Box<dyn CamberOrient> = if case.orient == "tmax" { TMaxFwd::make() } else { DirectionFwd::make(fwd) };
     verif::set_budget(400_000);
-    let r = guarded(|| AirfoilGeometry::try_analyze(sec, 1e-4 * l, o, locator(&case.le, l), locator(&case.te, l), face.clone()).map_err(|e| e.to_string()));
+    let (le, te) = if explicit { (locator_explicit(&case.le, l), locator_explicit(&case.te, l)) } else { (locator(&case.le, l), locator(&case.te, l)) };
+    let r = guarded(|| AirfoilGeometry::try_analyze(sec, 1e-4 * l, o, le, te, face.clone()).map_err(|e| e.to_string()));
     reset_budget();
     match r {
         Err(p) => Err(format!("panic: {}", p)),
@@ -330,6 +349,23 @@ fn judge_a(case: &Case, l_: &mut Local) {
                 Ok(g) => {
                     outcomes.push(true);
                     l_.outcome(hash_of(&(g.stations.len().min(200) / 10, case.section)));
+                    if variant == 0 && pi < 2 && (has_optional_tolerance(&case.le) || has_optional_tolerance(&case.te)) {
+                        // the optional tolerance of an edge method, given as the documented default, changes nothing
+                        l_.eval();
+                        l_.bucket("edge method with its default tolerance passed explicitly");
+                        let same = match analyze_with(&sec, l, case, &face, fwd, true) {
+                            Ok(g2) => {
+                                let pt = |e: &Option<_>| -> Option<Point2> { e.as_ref().map(|x: &engeom::airfoil::AirfoilEdge| x.point) };
+                                if g2.stations.len() == g.stations.len() && pt(&g2.leading_edge) == pt(&g.leading_edge) && pt(&g2.trailing_edge) == pt(&g.trailing_edge) && g2.camber.length() == g.camber.length() {
+                                    Ok(())
+                                } else {
+                                    Err(format!("{} stations, edges {:?} {:?}, camber {} against {} stations, edges {:?} {:?}, camber {}", g2.stations.len(), pt(&g2.leading_edge), pt(&g2.trailing_edge), g2.camber.length(), g.stations.len(), pt(&g.leading_edge), pt(&g.trailing_edge), g.camber.length()))
+                                }
+                            }
+                            Err(e) => Err(e),
+                        };
+                        l_.check("an edge method given its documented default tolerance explicitly gives the same analysis", "", same.is_ok(), mk, || format!("{}: {}", tag, same.clone().err().unwrap_or_default()));
+                    }
                     if sharp {
                         // only termination and the inscribed-circle clauses are claimed here
                         judge_common(&g, &sec, l, case, &tag, true, &|_| false, l_);
